@@ -197,6 +197,7 @@ def h(
     axis_names: Optional[Iterable[str]] = None,
     dim: Optional[int] = None,
     weights: Optional[ArrayLike] = None,
+    dtype: Optional[DTypeLike] = None,
     **kwargs,
 ) -> HistogramND:
     """Facade function to create n-dimensional histograms.
@@ -248,6 +249,7 @@ def h(
         array,
         binnings=bin_schemas,
         weights=weights,
+        dtype=dtype,
         axis_names=axis_names,
         name=name,
         title=title,
